@@ -31,26 +31,24 @@ theorem wf_bases_sorted (s : MSet) (hw : SetWF s) : SortedLE (s.files.map (·.ba
   · have : i = j := by omega
     subst this; exact Int.le_refl _
 
-theorem cacheHit_sound (s : MSet) (p : Int) (k : Nat) (h : cacheHit s p = some k) :
-    ∃ hk : k < s.files.length, inFile s.files[k] p = true := by
+/-- the cache holds one of the current files (or nothing): what `addFile`, lookups, the File
+methods and — crucially — `Read` must maintain -/
+def CacheOK (s : MSet) : Prop := ∀ f, s.last = some f → f ∈ s.files
+
+theorem cacheHit_sound (s : MSet) (p : Int) (f : MFile) (h : cacheHit s p = some f) :
+    s.last = some f ∧ inFile f p = true := by
   unfold cacheHit at h
   cases hl : s.last with
   | none => simp [hl] at h
-  | some l =>
+  | some g =>
     simp only [hl] at h
-    cases hf : s.files[l]? with
-    | none => simp [hf] at h
-    | some f =>
-      simp only [hf] at h
-      by_cases hi : inFile f p = true
-      · simp only [hi, if_true, Option.some.injEq] at h
-        subst h
-        obtain ⟨hl', hfe⟩ := List.getElem?_eq_some_iff.mp hf
-        exact ⟨hl', by rw [hfe]; exact hi⟩
-      · simp [hi] at h
+    by_cases hi : inFile g p = true
+    · simp only [hi, if_true, Option.some.injEq] at h
+      subst h; exact ⟨rfl, hi⟩
+    · simp [hi] at h
 
 theorem searchFile_found (s : MSet) (hw : SetWF s) (k : Nat) (hk : k < s.files.length) (p : Int)
-    (hin : inFile s.files[k] p = true) : searchFile s p = some k := by
+    (hin : inFile s.files[k] p = true) : searchFile s p = some s.files[k] := by
   unfold searchFile
   obtain ⟨r, hle, hp, he⟩ := searchEntry_of_part (s.files.map (·.base)) p (wf_bases_sorted s hw)
   rw [he]
@@ -76,8 +74,8 @@ theorem searchFile_found (s : MSet) (hw : SetWF s) (k : Nat) (hk : k < s.files.l
   subst hkeq
   simp [hin.2]
 
-theorem searchFile_sound (s : MSet) (hw : SetWF s) (p : Int) (k : Nat) (h : searchFile s p = some k) :
-    ∃ hk : k < s.files.length, inFile s.files[k] p = true := by
+theorem searchFile_sound (s : MSet) (hw : SetWF s) (p : Int) (f : MFile) (h : searchFile s p = some f) :
+    ∃ (k : Nat) (hk : k < s.files.length), s.files[k] = f ∧ inFile f p = true := by
   unfold searchFile at h
   obtain ⟨r, hle, hp, he⟩ := searchEntry_of_part (s.files.map (·.base)) p (wf_bases_sorted s hw)
   rw [he] at h
@@ -93,58 +91,85 @@ theorem searchFile_sound (s : MSet) (hw : SetWF s) (p : Int) (k : Nat) (h : sear
     by_cases hu : p ≤ s.files[r - 1].base + s.files[r - 1].size
     · simp only [hu, if_true, Option.some.injEq] at h
       subst h
-      exact ⟨hr1, (inFile_iff _ _).mpr ⟨hb, hu⟩⟩
+      exact ⟨r - 1, hr1, rfl, (inFile_iff _ _).mpr ⟨hb, hu⟩⟩
     · simp [hu] at h
   · simp [hpos] at h
 
-theorem lookup_found (s : MSet) (hw : SetWF s) (k : Nat) (hk : k < s.files.length) (p : Int)
-    (hin : inFile s.files[k] p = true) : (fileLookup s p).1 = some k := by
+theorem lookup_found (s : MSet) (hw : SetWF s) (hc : CacheOK s) (k : Nat) (hk : k < s.files.length) (p : Int)
+    (hin : inFile s.files[k] p = true) : (fileLookup s p).1 = some s.files[k] := by
   unfold fileLookup
-  cases hc : cacheHit s p with
-  | some k' =>
-    obtain ⟨hk', hin'⟩ := cacheHit_sound s p k' hc
-    simp [wf_unique s hw k' k hk' hk p hin' hin]
+  cases hch : cacheHit s p with
+  | some g =>
+    obtain ⟨hl, hin'⟩ := cacheHit_sound s p g hch
+    obtain ⟨j, hj, hjg⟩ := List.getElem_of_mem (hc g hl)
+    have : j = k := wf_unique s hw j k hj hk p (by rw [hjg]; exact hin') hin
+    subst this
+    simp [hjg]
   | none => simp [searchFile_found s hw k hk p hin]
 
-theorem lookup_none (s : MSet) (hw : SetWF s) (p : Int)
+theorem lookup_none (s : MSet) (hw : SetWF s) (hc : CacheOK s) (p : Int)
     (hout : ∀ (k : Nat) (hk : k < s.files.length), inFile s.files[k] p = false) : (fileLookup s p).1 = none := by
   unfold fileLookup
-  cases hc : cacheHit s p with
-  | some k' =>
-    obtain ⟨hk', hin'⟩ := cacheHit_sound s p k' hc
-    rw [hout k' hk'] at hin'; cases hin'
+  cases hch : cacheHit s p with
+  | some g =>
+    obtain ⟨hl, hin'⟩ := cacheHit_sound s p g hch
+    obtain ⟨j, hj, hjg⟩ := List.getElem_of_mem (hc g hl)
+    rw [← hjg, hout j hj] at hin'; cases hin'
   | none =>
     cases hs : searchFile s p with
-    | some k' =>
-      obtain ⟨hk', hin'⟩ := searchFile_sound s hw p k' hs
-      rw [hout k' hk'] at hin'; cases hin'
+    | some g =>
+      obtain ⟨j, hj, hjg, hin'⟩ := searchFile_sound s hw p g hs
+      rw [← hjg, hout j hj] at hin'; cases hin'
     | none => rfl
 
+/-- a lookup leaves a cache that is again one of the files -/
+theorem lookup_cache_ok (s : MSet) (hw : SetWF s) (hc : CacheOK s) (p : Int) :
+    ∀ f, (fileLookup s p).2 = some f → f ∈ s.files := by
+  intro f hf
+  unfold fileLookup at hf
+  cases hch : cacheHit s p with
+  | some g => rw [hch] at hf; exact hc f hf
+  | none =>
+    rw [hch] at hf
+    cases hs : searchFile s p with
+    | some g =>
+      rw [hs] at hf
+      simp only [Option.some.injEq] at hf
+      subst hf
+      obtain ⟨j, hj, hjg, _⟩ := searchFile_sound s hw p g hs
+      exact hjg ▸ List.getElem_mem hj
+    | none => rw [hs] at hf; exact hc f hf
 
 /-! ### Position through the lookup -/
-theorem position_found (s : MSet) (p : Int) (hp : p ≠ 0) (k : Nat) (hk : k < s.files.length)
-    (h : (fileLookup s p).1 = some k) : (position s p).1 = filePosition s.files[k] p := by
-  unfold position
+theorem position_found (s : MSet) (p : Int) (adj : Bool) (hp : p ≠ 0) (f : MFile)
+    (h : (fileLookup s p).1 = some f) : (positionFor s p adj).1 = filePosition f p adj := by
+  unfold positionFor
   rcases hfl : fileLookup s p with ⟨a, l⟩
   rw [hfl] at h
   simp only at h
   subst h
-  simp [hp, List.getElem?_eq_getElem hk]
+  simp [hp]
 
-theorem position_notfound (s : MSet) (p : Int) (h : (fileLookup s p).1 = none) :
-    (position s p).1 = MPosition.zero := by
-  unfold position
+theorem position_notfound (s : MSet) (p : Int) (adj : Bool) (h : (fileLookup s p).1 = none) :
+    (positionFor s p adj).1 = MPosition.zero := by
+  unfold positionFor
   rcases hfl : fileLookup s p with ⟨a, l⟩
   rw [hfl] at h
   simp only at h
   subst h
   by_cases hp : p = 0 <;> simp [hp]
 
-/-- what `Position` depends on -/
-def core (f : MFile) : String × Int × Int × List Int := (f.name, f.base, f.size, f.lines)
+/-- what `Position` depends on: name, base, size, line table AND line-info table -/
+def core (f : MFile) : String × Int × Int × List Int × List LineInfo := (f.name, f.base, f.size, f.lines, f.infos)
 
-theorem position_congr (s s' : MSet) (hw : SetWF s) (hw' : SetWF s')
-    (hc : s.files.map core = s'.files.map core) (p : Int) : (position s p).1 = (position s' p).1 := by
+theorem filePosition_core (f g : MFile) (h : core f = core g) (p : Int) (adj : Bool) :
+    filePosition f p adj = filePosition g p adj := by
+  simp only [core, Prod.mk.injEq] at h
+  simp only [filePosition, unpackAdj, h.1, h.2.1, h.2.2.2.1, h.2.2.2.2]
+
+theorem position_congr (s s' : MSet) (hw : SetWF s) (hw' : SetWF s') (hcs : CacheOK s) (hcs' : CacheOK s')
+    (hc : s.files.map core = s'.files.map core) (p : Int) (adj : Bool) :
+    (positionFor s p adj).1 = (positionFor s' p adj).1 := by
   have hlen : s.files.length = s'.files.length := by
     have := congrArg List.length hc; simpa using this
   have hcore : ∀ (k : Nat) (hk : k < s.files.length), core s.files[k] = core (s'.files[k]'(by omega)) := by
@@ -153,17 +178,18 @@ theorem position_congr (s s' : MSet) (hw : SetWF s) (hw' : SetWF s')
     have h2 : (s'.files.map core)[k]'(by simp; omega) = core (s'.files[k]'(by omega)) := by simp
     rw [← h1, ← h2]; simp only [hc]
   by_cases hp : p = 0
-  · simp [position, hp]
+  · simp [positionFor, hp]
   by_cases hex : ∃ (k : Nat) (hk : k < s.files.length), inFile s.files[k] p = true
   · obtain ⟨k, hk, hin⟩ := hex
     have hk' : k < s'.files.length := by omega
     have hck := hcore k hk
+    have hck' := hck
     simp only [core, Prod.mk.injEq] at hck
     have hin' : inFile s'.files[k] p = true := by
       rw [inFile_iff] at hin ⊢; rw [← hck.2.1, ← hck.2.2.1]; exact hin
-    rw [position_found s p hp k hk (lookup_found s hw k hk p hin),
-        position_found s' p hp k hk' (lookup_found s' hw' k hk' p hin')]
-    simp only [filePosition, hck.1, hck.2.1, hck.2.2.2]
+    rw [position_found s p adj hp _ (lookup_found s hw hcs k hk p hin),
+        position_found s' p adj hp _ (lookup_found s' hw' hcs' k hk' p hin')]
+    exact filePosition_core _ _ hck' p adj
   · have hout : ∀ (k : Nat) (hk : k < s.files.length), inFile s.files[k] p = false := by
       intro k hk
       cases h : inFile s.files[k] p with
@@ -177,13 +203,16 @@ theorem position_congr (s s' : MSet) (hw : SetWF s) (hw' : SetWF s')
       have := hout k hk
       simp only [inFile] at this ⊢
       rw [← hck.2.1, ← hck.2.2.1]; exact this
-    rw [position_notfound s p (lookup_none s hw p hout), position_notfound s' p (lookup_none s' hw' p hout')]
+    rw [position_notfound s p adj (lookup_none s hw hcs p hout), position_notfound s' p adj (lookup_none s' hw' hcs' p hout')]
 
 theorem read_write_files (s : MSet) : (read (write s)).files.map core = s.files.map core := by
   simp [read, write, List.map_map, core, Function.comp_def]
 
+theorem read_cache_ok (ss : SSet) : CacheOK (read ss) := by
+  intro f hf; simp [read] at hf
+
 theorem read_write_wf (s : MSet) (hw : SetWF s) : SetWF (read (write s)) := by
-  have hf : (read (write s)).files = s.files.map (fun f => ⟨f.name, f.base, f.size, 0, f.lines⟩) := by
+  have hf : (read (write s)).files = s.files.map (fun f => ⟨f.name, f.base, f.size, 0, f.lines, f.infos⟩) := by
     simp [read, write, List.map_map, Function.comp_def]
   constructor
   · intro f hf'
@@ -208,6 +237,7 @@ structure SetInv (s : MSet) : Prop where
   below : ∀ f ∈ s.files, f.base + f.cap < s.base
   gaps : ∀ (i j : Nat) (hi : i < s.files.length) (hj : j < s.files.length), i < j →
     s.files[i].base + s.files[i].cap < s.files[j].base
+  cache : CacheOK s
 
 theorem SetInv.wf {s : MSet} (h : SetInv s) : SetWF s where
   size_nonneg := h.size_nonneg
@@ -219,7 +249,7 @@ theorem SetInv.wf {s : MSet} (h : SetInv s) : SetWF s where
     omega
 
 theorem newFileSet_inv : SetInv newFileSet := by
-  constructor <;> simp [newFileSet]
+  constructor <;> simp [newFileSet, CacheOK]
 
 theorem addFile_inv (s s' : MSet) (name : String) (b sz cp : Int) (h : SetInv s)
     (ha : addFile s name b sz cp = .ok s') : SetInv s' := by
@@ -268,6 +298,66 @@ theorem addFile_inv (s s' : MSet) (name : String) (b sz cp : Int) (h : SetInv s)
         simp only [hi', hj', dite_true, dite_false, List.getElem_singleton]
         have := h.below _ (List.getElem_mem hi')
         omega
+    · intro f hf
+      simp only [Option.some.injEq] at hf
+      subst hf
+      simp
+
+/-- replacing the `k`-th File object by one with the same base and capacity and a size within
+the capacity keeps the invariant (the cache follows the object) -/
+theorem updateFile_inv (s : MSet) (k : Nat) (f f' : MFile) (h : SetInv s) (hf : s.files[k]? = some f)
+    (hb : f'.base = f.base) (hc : f'.cap = f.cap) (h0 : 0 ≤ f'.size) (hs : f'.size ≤ f'.cap) :
+    SetInv (updateFile s k f f') := by
+  obtain ⟨hk, hfe⟩ := List.getElem?_eq_some_iff.mp hf
+  have hfm : f ∈ s.files := hfe ▸ List.getElem_mem hk
+  have hmem : ∀ g ∈ s.files.set k f', g ∈ s.files ∨ g = f' := fun g hg => List.mem_or_eq_of_mem_set hg
+  constructor
+  · exact h.base_pos
+  · intro g hg
+    rcases hmem g hg with hg | rfl
+    · exact h.fbase_pos g hg
+    · rw [hb]; exact h.fbase_pos f hfm
+  · intro g hg
+    rcases hmem g hg with hg | rfl
+    · exact h.size_nonneg g hg
+    · exact h0
+  · intro g hg
+    rcases hmem g hg with hg | rfl
+    · exact h.size_le_cap g hg
+    · exact hs
+  · intro g hg
+    rcases hmem g hg with hg | rfl
+    · exact h.below g hg
+    · have := h.below f hfm
+      simp only [updateFile]; rw [hb, hc]; exact this
+  · intro i j hi hj hij
+    simp only [updateFile, List.length_set] at hi hj
+    simp only [updateFile, List.getElem_set]
+    have := h.gaps i j hi hj hij
+    split <;> split
+    · omega
+    · rename_i h1 h2; subst h1; rw [hfe] at this; rw [hb, hc]; exact this
+    · rename_i h1 h2; subst h2; rw [hfe] at this; rw [hb]; exact this
+    · exact this
+  · intro g hg
+    simp only [updateFile] at hg ⊢
+    cases hl : s.last with
+    | none => rw [hl] at hg; cases hg
+    | some l =>
+      rw [hl] at hg
+      simp only at hg
+      by_cases hlf : l = f
+      · simp only [hlf, if_true, Option.some.injEq] at hg
+        subst hg
+        exact List.mem_iff_getElem.mpr ⟨k, by simpa using hk, by simp⟩
+      · simp only [hlf, if_false, Option.some.injEq] at hg
+        subst hg
+        obtain ⟨j, hj, hjl⟩ := List.getElem_of_mem (h.cache l hl)
+        have hjk : j ≠ k := by
+          intro e; subst e; rw [hfe] at hjl; exact hlf hjl.symm
+        have : (s.files.set k f')[j]'(by simpa using hj) = l := by
+          rw [List.getElem_set]; simp [Ne.symm hjk, hjl]
+        exact this ▸ List.getElem_mem _
 
 theorem setContent_inv (s s' : MSet) (k : Nat) (c : List Nat) (h : SetInv s)
     (hs : setContent s k c = .ok s') : SetInv s' := by
@@ -280,37 +370,29 @@ theorem setContent_inv (s s' : MSet) (k : Nat) (c : List Nat) (h : SetInv s)
     · rename_i hcap
       injection hs with hs
       subst hs
-      obtain ⟨hk, hfe⟩ := List.getElem?_eq_some_iff.mp hf
-      have hfm : f ∈ s.files := hfe ▸ List.getElem_mem hk
-      have hmem : ∀ g ∈ s.files.set k { f with size := (c.length : Int), lines := setLinesForContent c },
-          g ∈ s.files ∨ g = { f with size := (c.length : Int), lines := setLinesForContent c } :=
-        fun g hg => List.mem_or_eq_of_mem_set hg
-      constructor
-      · exact h.base_pos
-      · intro g hg
-        rcases hmem g hg with hg | rfl
-        · exact h.fbase_pos g hg
-        · exact h.fbase_pos f hfm
-      · intro g hg
-        rcases hmem g hg with hg | rfl
-        · exact h.size_nonneg g hg
-        · simp only; omega
-      · intro g hg
-        rcases hmem g hg with hg | rfl
-        · exact h.size_le_cap g hg
-        · simp only; omega
-      · intro g hg
-        rcases hmem g hg with hg | rfl
-        · exact h.below g hg
-        · exact h.below f hfm
-      · intro i j hi hj hij
-        simp only [List.length_set] at hi hj
-        simp only [List.getElem_set]
-        have := h.gaps i j hi hj hij
-        split <;> split
-        · omega
-        · rename_i h1 h2; subst h1; simp only; rw [hfe] at this; exact this
-        · rename_i h1 h2; subst h2; simp only; rw [hfe] at this; exact this
-        · exact this
+      exact updateFile_inv s k f _ h hf rfl rfl (by simp only; omega) (by simp only; omega)
+
+theorem addLineInfo_inv (s s' : MSet) (k : Nat) (li : LineInfo) (h : SetInv s)
+    (hs : addLineInfo s k li = .ok s') : SetInv s' := by
+  unfold addLineInfo at hs
+  split at hs
+  · cases hs
+  · rename_i f hf
+    obtain ⟨hk, hfe⟩ := List.getElem?_eq_some_iff.mp hf
+    have hfm : f ∈ s.files := hfe ▸ List.getElem_mem hk
+    simp only at hs
+    generalize (match f.infos.getLast? with
+      | none => true
+      | some prev => decide (prev.offset < li.offset) && decide (li.offset < f.size)) = okb at hs
+    cases okb with
+    | true =>
+      simp only [if_true] at hs
+      injection hs with hs
+      subst hs
+      exact updateFile_inv s k f _ h hf rfl rfl (h.size_nonneg f hfm) (h.size_le_cap f hfm)
+    | false =>
+      simp only [Bool.false_eq_true, if_false] at hs
+      injection hs with hs
+      subst hs; exact h
 
 end WaVerif.C23
